@@ -76,15 +76,16 @@ def custom_token_recognition(head, get_tokens):
 # -- recording actions ---------------------------------------------------------
 
 
-def recording_actions(nts, terms):
+def recording_actions(nts, terms, tag="n"):
     """Actions whose return value encodes which action ran, for which
-    alternative, with which sub-results and named matches."""
+    alternative, with which sub-results and named matches.  tag marks the
+    table the action came from (a failing construction uses another table)."""
     acts = {}
     for n in nts:
 
         def nt_action(context, nodes, _n=n, **kw):
             SEAM.hit("reduce_action")
-            r = ["n", _n, context.production.prod_symbol_id, list(nodes)]
+            r = [tag, _n, context.production.prod_symbol_id, list(nodes)]
             if kw:
                 r.append({k: kw[k] for k in sorted(kw)})
             return r
@@ -94,7 +95,7 @@ def recording_actions(nts, terms):
 
         def t_action(context, value, *rest, _t=t):
             SEAM.hit("term_action")
-            return ["t", _t, value]
+            return ["t" if tag == "n" else "t-" + tag, _t, value]
 
         acts[t] = t_action
     return acts
